@@ -1,4 +1,5 @@
 import BoltonsVerif.C04.Proofs
+import BoltonsVerif.Generated.C04_Consts
 /-
 C04 — property theorems: a trace accepted by `SafeTrace` is crash safe at every prefix under both
 crash semantics; the transliterated saver emits accepted traces; a normal exit leaves the complete
@@ -106,6 +107,21 @@ theorem raising_exit (cfg : Cfg) (fs : FS) (body : Body) (hwf : fs.WF) (hh : fs.
     simp only [FS.readDest, h1, inode?_old fs fs' x hwf h4]
   · obtain ⟨h1, _, _, x, h4, _⟩ := hi
     simp only [FS.readDest, h1, inode?_old fs fs' x hwf h4]
+
+/-- `SafeTrace` is prefix closed: what has been accepted so far stays accepted -/
+theorem safeTrace_prefix (p q : List Ev) (h : SafeTrace (p ++ q) = true) : SafeTrace p = true := by
+  unfold SafeTrace at *
+  rw [run_append] at h
+  cases hp : St.init.run p with
+  | none => simp [hp] at h
+  | some s => simp
+
+/-- translator obligation (regenerated from the current source on every run): the flags with which
+    the part file is opened contain `O_CREAT` and `O_EXCL` and not `O_TRUNC`, in text and binary mode -
+    what the model's `openPart true _ _` in `saverTrace` stands for -/
+theorem source_open_flags_exclusive :
+    Gen.textFlagsExcl = true ∧ Gen.textFlagsCreat = true ∧ Gen.textFlagsTrunc = false ∧
+    Gen.binFlagsExcl = true ∧ Gen.binFlagsCreat = true ∧ Gen.binFlagsTrunc = false := by decide
 
 /-! ### necessity: dropping an ingredient of `SafeTrace` admits a bad crash outcome -/
 
